@@ -138,10 +138,15 @@ Record rreaderS := mkRd {
 }.
 
 (* read_block on file n at position pos: (ctx, new pos, result) *)
+(* R2: an injected fault of kind UnexpectedEof is absorbed as a short read (Ok None). *)
 Definition read_block (c : ioctx) (n pos : N) : ioctx * N * res (option bytes) :=
   let name := filename n in
   match fault_point c SRead with
-  | (c1, Some e) => (ctx_ev c1 (EvRead name pos (BS P) false), pos, Err e)
+  (* directory.rs read_block: `Err(e) if e.kind() == UnexpectedEof => Ok(false)`: an injected
+     UnexpectedEof is indistinguishable from a short file. The hook fires before read_exact
+     runs, so the OS position is unchanged. *)
+  | (c1, Some e) => (ctx_ev c1 (EvRead name pos (BS P) false), pos,
+                     match e with IoUnexpectedEof => Ok None | _ => Err e end)
   | (c1, None) =>
       let content := file_content c1 n in
       let len := lenN content in
